@@ -224,6 +224,8 @@ def realize(interp, ctx, v):
         kw = {k: x for k, x in kw.items() if k in names}
         obj = interp.instantiate(cls, (v.data,), kw, ctx)
         return obj
+    if hasattr(v, "realize"):
+        return v.realize(interp, ctx)
     if isinstance(v, tuple):
         return tuple(realize(interp, ctx, x) for x in v)
     if isinstance(v, list):
@@ -432,12 +434,17 @@ def verify_function(interp, contract: Contract, inst: Instance, prop_prefix=""):
                             ctx.sanctioned |= set(f.owner)
                 if isinstance(arr, SArr):
                     ctx.sanctioned |= set(arr.owner)
+        from .loops import PathEnd
         interp.no_contract.add(contract.qualname)
+        if getattr(contract, "on_path_start", None):
+            contract.on_path_start(interp, ctx)
         try:
             if contract.body is not None:
                 got = run_outcome(lambda: contract.body(interp, ctx, args, kwargs))
             else:
                 got = run_outcome(lambda: interp.inline_function(fv, args, kwargs, ctx))
+        except PathEnd:
+            return
         finally:
             interp.no_contract.discard(contract.qualname)
         c = SpecCtx(interp, ctx, contract)
